@@ -31,7 +31,7 @@ func vfGenProdConf(t *rapid.T, emph string) vfProdConf {
 	switch {
 	case emph == "C05":
 		c.Idempotent = true
-	case modern && emph != "C18" && emph != "C16" && vfcore.EnvInt("VF_NO_IDEMPOTENT", 0) == 0:
+	case modern && emph != "C18" && emph != "C16" && emph != "C12" && vfcore.EnvInt("VF_NO_IDEMPOTENT", 0) == 0:
 		c.Idempotent = rapid.IntRange(0, 3).Draw(t, "idempotent") == 0
 	}
 	if c.Idempotent {
